@@ -184,6 +184,14 @@ class FromDAOState:
     the temporary parent DAOs created in `_build_base_kwargs_for_alternative_parent`) while this state is in use.
     """
 
+    deferred_fixes: Dict[int, List[Tuple[Any, str, Any]]] = field(default_factory=dict)
+    """
+    References that were resolved while the referenced DAO of an alternatively mapped class was still being
+    converted. The memo holds the intermediate `AlternativeMapping` instance of such a DAO until `create_from_dao`
+    has produced the final object, hence these references are fixed again once the final object exists.
+    Maps the id of the DAO in progress to (object holding the reference, attribute name, circular reference value).
+    """
+
     def has(self, dao_obj: Any) -> bool:
         return id(dao_obj) in self.memo
 
@@ -270,6 +278,26 @@ class FromDAOState:
                 setattr(result, key, fixed_list)
             else:
                 setattr(result, key, self.memo.get(id(value)))
+
+            # the memo entry of an alternatively mapped DAO that is still in progress is its intermediate mapping
+            # instance: remember the reference and fix it again when the final object has been created
+            for v in value if isinstance(value, list) else [value]:
+                if id(v) in self.in_progress and isinstance(
+                    self.memo.get(id(v)), AlternativeMapping
+                ):
+                    self.deferred_fixes.setdefault(id(v), []).append(
+                        (result, key, value)
+                    )
+
+    def apply_deferred_fixes(self, dao_obj: Any) -> None:
+        """
+        Fix the references to `dao_obj` that were resolved to its intermediate mapping instance while it was being
+        converted. Has to be called after the memo entry of `dao_obj` has been replaced by the final object.
+
+        :param dao_obj: The DAO of an alternatively mapped class whose conversion has just been finished.
+        """
+        for holder, key, value in self.deferred_fixes.pop(id(dao_obj), []):
+            self.apply_circular_fixes(holder, {key: value})
 
 
 class HasGeneric(Generic[T]):
@@ -703,6 +731,9 @@ class DataAccessObject(HasGeneric[T]):
         if isinstance(result, AlternativeMapping):
             result = result.create_from_dao()
             state.memo[id(self)] = result
+            del state.in_progress[id(self)]
+            state.apply_deferred_fixes(self)
+            return result
 
         del state.in_progress[id(self)]
         return result
